@@ -96,4 +96,5 @@ package log
 //@   on return assert writes-to-the-day-file-of-now: called((*rollingFile).getCurrPath) && ncalls((*rollingFile).getCurrPath) == 1
 //@   before call os.Stat assert checks-the-day-file-of-now: arg0 == lastret((*rollingFile).getCurrPath, 0)
 //@   before call open assert opens-the-day-file-of-now: arg0 == lastret((*rollingFile).getCurrPath, 0)
+//@   before call open assert appends-to-what-is-there: arg1 & os.O_APPEND != 0 && arg1 & os.O_CREATE != 0 && arg1 & os.O_TRUNC == 0
 //@   modifies everything
